@@ -32,8 +32,8 @@ for sub in ["lean/Kolibrie/Model", "lean/Kolibrie/Spec", "lean/Kolibrie/Lemmas",
         rel = os.path.join(sub, f)
         if os.path.isfile(os.path.join(W, rel)) and not os.path.exists(os.path.join(ROOT, rel)) and not re.fullmatch(r"C\d\d\.lean", f):
             cp(rel)
-# extractor items: every top-level def / class / CONSTANT block of the agent's file that /verif's file lacks
-mine = open(os.path.join(ROOT, "tools/extract.py")).read()
+# extractor items: the agent's own blocks become tools/extractors/<first id>.py (private helpers, no name clashes)
+BASE_NAMES = {"REPO", "OUT", "fails", "defs", "src", "fail", "main", "ex_quoted_bit"}
 theirs = open(os.path.join(W, "tools/extract.py")).read()
 def top_blocks(text):
     lines = text.split("\n")
@@ -41,24 +41,29 @@ def top_blocks(text):
     out = []
     for k, i in enumerate(starts):
         j = starts[k + 1] if k + 1 < len(starts) else len(lines)
-        # stop before the __main__ guard
         body = []
         for l in lines[i:j]:
             if l.startswith("if __name__"):
                 break
             body.append(l)
-        while body and (body[-1].strip() == "" or body[-1].startswith("#")):
+        while body and body[-1].strip() == "":
             body.pop()
         name = re.match(r"(?:def |class )?([A-Za-z_][A-Za-z_0-9]*)", lines[i]).group(1)
         out.append((name, "\n".join(body)))
     return out
-have_names = {n for n, _ in top_blocks(mine)}
-added = [(n, b) for n, b in top_blocks(theirs) if n not in have_names]
-if added:
-    marker = '\nif __name__ == "__main__":'
-    mine = mine.replace(marker, "\n\n" + "\n\n\n".join(b for _, b in added) + "\n\n" + marker)
-    open(os.path.join(ROOT, "tools/extract.py"), "w").write(mine)
-    print("extract.py: added", [n for n, _ in added])
+seen, uniq = set(), []
+for n, b in top_blocks(theirs):
+    if n in BASE_NAMES or n in seen:
+        continue
+    seen.add(n)
+    uniq.append(b)
+if uniq:
+    tag = ids[0].lower()
+    os.makedirs(os.path.join(ROOT, "tools", "extractors"), exist_ok=True)
+    open(os.path.join(ROOT, "tools", "extractors", tag + ".py"), "w").write(
+        '"""extractor items contributed with %s; `src`, `fail`, `defs`, `re`, `os`, `sys`, `REPO` are injected by tools/extract.py"""\n\n' % ids[0]
+        + "\n\n\n".join(uniq) + "\n")
+    print("extractors/%s.py:" % tag, sorted(seen))
 # known findings
 kf = json.load(open(os.path.join(ROOT, "known_findings.json")))
 tk = json.load(open(os.path.join(W, "known_findings.json")))
